@@ -171,8 +171,30 @@ func propCodec(c CodecCase) (o pbt.Outcome) {
 	return
 }
 
+// bothPaths evaluates a property on the routines selected at start-up (BMI2
+// where the CPU has it) and again with the portable routines selected, so
+// that the codec is exercised on every CPU path this host can execute.
+func bothPaths[C any](prop func(C) pbt.Outcome) func(C) pbt.Outcome {
+	return func(c C) pbt.Outcome {
+		o := prop(c)
+		if o.Violation != "" {
+			return o
+		}
+		mathext.VerifSelectGeneric(true)
+		p := prop(c)
+		mathext.VerifSelectGeneric(false)
+		if p.Violation != "" {
+			p.Sig = "portable-path/" + p.Sig
+			p.Violation = "with the portable PDEP/PEXT routines selected: " + p.Violation
+			return p
+		}
+		o.Label("paths=active+portable")
+		return o
+	}
+}
+
 func TestC17Codec(t *testing.T) {
-	pbt.Run(t, "C17", "codec", genCodec, propCodec)
+	pbt.Run(t, "C17", "codec", genCodec, bothPaths(propCodec))
 }
 
 // ---- (2)+(3) canonicity and rejection ---------------------------------------
@@ -306,15 +328,16 @@ func propDecode(d DecodeCase) (o pbt.Outcome) {
 }
 
 func TestC17Decode(t *testing.T) {
-	pbt.Run(t, "C17", "decode", genDecode, propDecode)
+	pbt.Run(t, "C17", "decode", genDecode, bothPaths(propDecode))
 }
 
 // ---- (4) PDEP / PEXT: portable == hardware == bit-by-bit reference ----------
 
 type BitsCase struct {
-	Seed  uint64 `json:"seed"`
-	Shape int    `json:"shape"`
-	Count int    `json:"count"`
+	Seed   uint64 `json:"seed"`
+	Shape  int    `json:"shape"`            // shape of the masks
+	XShape int    `json:"xshape,omitempty"` // shape of the source values (0 uniform, 1 one bit, 2 two bits, 3 small, 4 low ones, 5 high ones, 6 sparse, 7 boundary table)
+	Count  int    `json:"count"`
 }
 
 func refPDEP(x, mask uint64) uint64 {
@@ -342,7 +365,7 @@ func refPEXT(x, mask uint64) uint64 {
 }
 
 func genBits(t *rapid.T) BitsCase {
-	return BitsCase{Seed: rapid.Uint64().Draw(t, "seed"), Shape: rapid.IntRange(0, 5).Draw(t, "shape"), Count: 2000}
+	return BitsCase{Seed: rapid.Uint64().Draw(t, "seed"), Shape: rapid.IntRange(0, 5).Draw(t, "shape"), XShape: rapid.IntRange(0, 7).Draw(t, "xshape"), Count: 2000}
 }
 
 var hwUsed bool
@@ -359,9 +382,26 @@ func propBits(c BitsCase) (o pbt.Outcome) {
 	hwUsed = hw
 	o.Label("bmi2=%v", hw)
 	o.Label("shape=%d", c.Shape)
+	o.Label("xshape=%d", c.XShape)
 	o.NonTrivial = true
 	for i := 0; i < c.Count; i++ {
 		x, m := next(), next()
+		switch c.XShape {
+		case 1:
+			x = 1 << (x % 64) // a single bit
+		case 2:
+			x = 1<<(x%64) | 1<<((x>>8)%64) // two bits
+		case 3:
+			x &= 0xff // small values
+		case 4:
+			x = 1<<(x%65%64) - 1 // low k bits set (0 for k = 0 or 64)
+		case 5:
+			x = ^uint64(0) << (x % 64) // high bits set
+		case 6:
+			x &= next() & next() & next() // sparse
+		case 7:
+			x = []uint64{0, ^uint64(0), m, ^m, 1, 1 << 63, 0x00000000ffffffff, 0x8000000000000001}[i%8]
+		}
 		switch c.Shape {
 		case 1:
 			m &= next() & next() // sparse
